@@ -81,6 +81,9 @@ func predsMatching(o *psOutcome, f func(atom string) bool) (trues, falses []stri
 func cmpAtom(o *psOutcome, lhs, op, rhsContains string) (bool, bool) {
 	for a, v := range o.S.preds {
 		if strings.HasPrefix(a, "("+lhs+op) && strings.Contains(a[len(lhs)+1:], rhsContains) {
+			if rest := a[len(lhs)+1+len(op):]; (op == ">" || op == "<") && strings.HasPrefix(rest, "=") {
+				continue // ">=" is not ">"
+			}
 			return v, true
 		}
 	}
